@@ -5,6 +5,7 @@ import (
 	"go/ast"
 	"go/constant"
 	"go/token"
+	"sort"
 	"go/types"
 	"strings"
 
@@ -24,7 +25,7 @@ func init() {
 			"(e) a nil error is returned only with a non-nil selected value; (f) 'best' replaces its candidate only when the new score is greater (or equal), taking value, score and provider from the same response; " +
 			"(g) 'majority' succeeds only when the winning count >= threshold (exactly that relation) and counts each response under its own root; (h) what 'first' returns was received from the result channel; " +
 			"(i) one request goroutine per configured provider (range over the provider map without early exit) and the expected-response count is len of that map. " +
-			"Added with the third seeding round: (k) a received response is passed over in favour of the kept candidate only where a candidate exists (the first acceptable response is adopted); (l) no 64-bit accessor of an arbitrary-precision amount in the scoring code. Added with the fourth seeding round: (m) no strategy fan-out runs under an errgroup context; (n) the head-nearness bonus is withheld only on a failed lookup or head > attestation slot; (o) tallies of the majority strategies are per call. Added with the fifth seeding round: (p) a fan-out worker sends at most one message per request on its result/error channels (no path from one send to another), (q) whether a proposal's fee recipient is examined depends on the proposal's version only. Added with the sixth seeding round and the false-alarm regression: (r) in a selection loop a new leader (tally raised) re-assigns every loop-carried best* variable; (s) the context under which the requests are issued is not cancelled before the last collector; (x) no integer ratio converted to floating point afterwards. Added with the seventh seeding round: (t) a majority collector goes on waiting exactly while the largest tally is below n/2+1 (decided by evaluating the comparison for all small n and counts). Added with the eighth seeding round: (i, extended) every trip round a provider fan-out loop passes the go statement; (t) is restricted to comparisons inside a loop; (y) C19.4 (the timeout getter) is taken over. NOT decided: optimality under latency (which responses have arrived by the decision point), score arithmetic, map-order tie-breaks, wall-clock bounds.",
+			"Added with the third seeding round: (k) a received response is passed over in favour of the kept candidate only where a candidate exists (the first acceptable response is adopted); (l) no 64-bit accessor of an arbitrary-precision amount in the scoring code. Added with the fourth seeding round: (m) no strategy fan-out runs under an errgroup context; (n) the head-nearness bonus is withheld only on a failed lookup or head > attestation slot; (o) tallies of the majority strategies are per call. Added with the fifth seeding round: (p) a fan-out worker sends at most one message per request on its result/error channels (no path from one send to another), (q) whether a proposal's fee recipient is examined depends on the proposal's version only. Added with the sixth seeding round and the false-alarm regression: (r) in a selection loop a new leader (tally raised) re-assigns every loop-carried best* variable; (s) the context under which the requests are issued is not cancelled before the last collector; (x) no integer ratio converted to floating point afterwards. Added with the seventh seeding round: (t) a majority collector goes on waiting exactly while the largest tally is below n/2+1 (decided by evaluating the comparison for all small n and counts). Added with the eighth seeding round: (i, extended) every trip round a provider fan-out loop passes the go statement; (t) is restricted to comparisons inside a loop; (y) C19.4 (the timeout getter) is taken over. Added with the ninth seeding round: (w) a collector loops while the sum of its counters differs from the number of requests; an arm that assigns a counter from that total leaves the sum equal to it (decided by evaluating the arm's assignments for arbitrary counter values); (l) also covers the deadline strategy. NOT decided: optimality under latency (which responses have arrived by the decision point), score arithmetic, map-order tie-breaks, wall-clock bounds.",
 		Technique: "template conformance over all strategy packages on SSA and typed AST: context provenance through parameters/closures, select-arm analysis, cancel pairing by path queries, guard/edge-deletion with relation sets, loop-exit analysis",
 		Rule:      "one obligation per select/receive (a,b), per cancel function (c), per forwarding send (d), per success return (e,h), per score comparison (f), per threshold test (g), per fan-out loop (i)",
 	})
@@ -1010,6 +1011,190 @@ func runC07(p *core.Prog, r *core.Report, tier string) {
 	}
 	r.Floor("C07.g majority strategies with a threshold", nThr, 1)
 
+	// ---- (w) the arm that gives up on the outstanding answers closes the count: a collector loops while
+	// responded+errored+timedOut(+…) != requests; where an arm assigns one of these counters from the total
+	// (timedOut = requests - responded - errored), the sum must equal the total afterwards — otherwise the loop spins
+	// on the expired context for ever. Decided by evaluating the arm's assignments for arbitrary counter values. ----
+	nClose := 0
+	for _, f := range fns {
+		loopsW := naturalLoops(f)
+		var heads []*ssa.BasicBlock
+		for h := range loopsW {
+			heads = append(heads, h)
+		}
+		sort.Slice(heads, func(i, j int) bool { return heads[i].Index < heads[j].Index })
+		loopNo := 0
+		for _, h := range heads {
+			iff, ok := h.Instrs[len(h.Instrs)-1].(*ssa.If)
+			if !ok {
+				continue
+			}
+			cmp, ok := iff.Cond.(*ssa.BinOp)
+			if !ok || cmp.Op != token.NEQ {
+				continue
+			}
+			loopNo++
+			sumV, totalV := cmp.X, cmp.Y
+			isHeaderPhi := func(v ssa.Value) bool {
+				phi, ok := v.(*ssa.Phi)
+				return ok && phi.Block() == h
+			}
+			counters, _ := arithLeaves(sumV)
+			okShape := len(counters) >= 2 && !isHeaderPhi(totalV)
+			for _, c := range counters {
+				if !isHeaderPhi(c) {
+					okShape = false
+				}
+			}
+			if !okShape {
+				counters, _ = arithLeaves(totalV)
+				sumV, totalV = totalV, sumV
+				okShape = len(counters) >= 2 && !isHeaderPhi(totalV)
+				for _, c := range counters {
+					if !isHeaderPhi(c) {
+						okShape = false
+					}
+				}
+			}
+			if !okShape {
+				continue
+			}
+			if tl, _ := arithLeaves(totalV); len(tl) != 1 || tl[0] != totalV {
+				continue
+			}
+			body := loopsW[h]
+			for i, pred := range h.Preds {
+				if !body[pred] {
+					continue
+				}
+				// inner merge blocks the arm's values pass through
+				var merges []*ssa.BasicBlock
+				seenB := map[*ssa.BasicBlock]bool{}
+				var collect func(v ssa.Value, depth int)
+				collect = func(v ssa.Value, depth int) {
+					if depth > 10 {
+						return
+					}
+					switch x := v.(type) {
+					case *ssa.Phi:
+						if x.Block() == h {
+							return
+						}
+						if !seenB[x.Block()] {
+							seenB[x.Block()] = true
+							merges = append(merges, x.Block())
+						}
+						for _, e := range x.Edges {
+							collect(e, depth+1)
+						}
+					case *ssa.BinOp:
+						collect(x.X, depth+1)
+						collect(x.Y, depth+1)
+					case *ssa.Convert:
+						collect(x.X, depth+1)
+					}
+				}
+				for _, c := range counters {
+					collect(c.(*ssa.Phi).Edges[i], 0)
+				}
+				if len(merges) > 4 {
+					continue
+				}
+				combos := 1
+				for _, mb := range merges {
+					combos *= len(mb.Preds)
+				}
+				if combos > 256 {
+					continue
+				}
+				closes, broken := false, ""
+				for combo := 0; combo < combos; combo++ {
+					choice := map[*ssa.BasicBlock]int{}
+					k := combo
+					for _, mb := range merges {
+						choice[mb] = k % len(mb.Preds)
+						k /= len(mb.Preds)
+					}
+					for trial := int64(0); trial < 3; trial++ {
+						env := map[ssa.Value]int64{totalV: 11 + 3*trial}
+						for ci, c := range counters {
+							env[c] = int64(ci) + 1 + trial
+						}
+						usedTotal := false
+						var ev func(v ssa.Value, depth int) (int64, bool)
+						ev = func(v ssa.Value, depth int) (int64, bool) {
+							if depth > 14 {
+								return 0, false
+							}
+							if n, ok := env[v]; ok {
+								if v == totalV {
+									usedTotal = true
+								}
+								return n, true
+							}
+							switch x := v.(type) {
+							case *ssa.Const:
+								if x.Value != nil && x.Value.Kind() == constant.Int {
+									n, exact := constant.Int64Val(x.Value)
+									return n, exact
+								}
+							case *ssa.Convert:
+								return ev(x.X, depth+1)
+							case *ssa.Phi:
+								if x.Block() != h {
+									if ch, ok := choice[x.Block()]; ok && ch < len(x.Edges) {
+										return ev(x.Edges[ch], depth+1)
+									}
+								}
+							case *ssa.BinOp:
+								a, ok1 := ev(x.X, depth+1)
+								b, ok2 := ev(x.Y, depth+1)
+								if !ok1 || !ok2 {
+									return 0, false
+								}
+								switch x.Op {
+								case token.ADD:
+									return a + b, true
+								case token.SUB:
+									return a - b, true
+								case token.MUL:
+									return a * b, true
+								}
+							}
+							return 0, false
+						}
+						next := map[ssa.Value]int64{}
+						evaluable := true
+						for _, c := range counters {
+							n, ok := ev(c.(*ssa.Phi).Edges[i], 0)
+							if !ok {
+								evaluable = false
+							}
+							next[c] = n
+						}
+						if !evaluable || !usedTotal {
+							continue
+						}
+						closes = true
+						env2 := map[ssa.Value]int64{totalV: env[totalV]}
+						for c, n := range next {
+							env2[c] = n
+						}
+						if sum, ok := evalArith(sumV, env2); ok && sum != env[totalV] {
+							broken = fmt.Sprintf("with %s = %d and the counters at %v the arm leaves the sum at %d", ds.D(totalV).String(), env[totalV], counterValues(counters, env), sum)
+						}
+					}
+				}
+				if !closes {
+					continue
+				}
+				nClose++
+				r.Check(broken == "", "C07.w", fmt.Sprintf("%s|collector-loop#%d|timeout-arm-closes-the-count", core.FnKey(f), loopNo), p.Pos(core.IfPos(iff)), "after the arm that writes off the outstanding answers the counters add up to the number of requests", "the arm that writes off the outstanding answers does not make the counters add up to the number of requests ("+broken+"): the loop condition stays true, the expired context stays ready, and the collector spins for ever — the strategy never returns")
+			}
+		}
+	}
+	r.Floor("C07.w count-closing arms of collector loops", nClose, 4)
+
 	// ---- (t) the early exit of a majority collector: the loop stops waiting for further answers only once the largest
 	// tally is a STRICT majority of the requests (count >= n/2+1); any smaller bound lets it settle on a value that the
 	// outstanding answers could still outvote. Decided by evaluating the comparison for all small n and counts.
@@ -1477,4 +1662,16 @@ func evalArith(v ssa.Value, env map[ssa.Value]int64) (int64, bool) {
 		}
 	}
 	return 0, false
+}
+
+func counterValues(cs []ssa.Value, env map[ssa.Value]int64) []string {
+	var out []string
+	for _, c := range cs {
+		name := "?"
+		if phi, ok := c.(*ssa.Phi); ok && phi.Comment != "" {
+			name = phi.Comment
+		}
+		out = append(out, fmt.Sprintf("%s=%d", name, env[c]))
+	}
+	return out
 }
